@@ -10,7 +10,7 @@ EXTENDS Streams, TLC
 CONSTANTS MaxContent,     \* contents are the prefixes of <<1, 2, .., MaxContent>> (distinct bytes expose reordering)
           MaxChunks,      \* chunks per script
           MaxChunk,       \* largest chunk
-          MaxRead,        \* Read buffer sizes 0..MaxRead
+          ReadSizes,      \* Read buffer sizes (a set; 0 = zero-length read)
           MaxHist         \* actions per history
 
 ContentBytes == [i \in 1..MaxContent |-> i]
@@ -30,7 +30,7 @@ NilScript == [content |-> <<>>, chunks |-> <<>>, term |-> "eof", withData |-> FA
 
 Declared == {"pos", "zero", "absent"}
 
-Acts == { [a |-> "has", k |-> 0], [a |-> "close", k |-> 0] } \cup { [a |-> "read", k |-> k] : k \in 0..MaxRead }
+Acts == { [a |-> "has", k |-> 0], [a |-> "close", k |-> 0] } \cup { [a |-> "read", k |-> k] : k \in ReadSizes }
 
 Init == /\ s = InitState(NilScript, "absent", TRUE) /\ act = [a |-> "none", k |-> 0]
         /\ started = FALSE /\ why = ""
@@ -60,7 +60,7 @@ StepsAllowed == why = ""
 StateInv == started =>
   /\ NothingLost(s)
   /\ CloseCountOK(s)
-  /\ \A k \in 1..MaxRead : DrainDelivers(s, k)
+  /\ \A k \in ReadSizes \ {0} : DrainDelivers(s, k)
 
 (* non-vacuity witnesses: each must be VIOLATED (checked during development) *)
 NeverTrue      == ~(act.a = "has" /\ s.ret.b /\ s.declared = "absent")
